@@ -170,7 +170,7 @@ Definition tail (c2 : sconn) (s : stream) (fr : sframe) (wasClosing : bool) : sc
   end.
 
 (* ---------- a connection ready for a new request on sid ---------- *)
-Record ready (c : sconn) (sid : N) : Prop := mkReady {
+Record ready_sl (c : sconn) (sid : N) : Prop := mkReady {
   rd_odd : N.land sid 1 = 1;
   rd_fresh : sc_highestID c < sid;
   rd_last : sc_lastID c <= sc_highestID c;
@@ -182,18 +182,18 @@ Record ready (c : sconn) (sid : N) : Prop := mkReady {
   rd_slot : (sc_open c < cf_maxStreams cfg)%Z;
   rd_closing : sc_closing c = false;
   rd_sl : sc_sl_done c = false;
-  rd_rl : sc_rl_done c = false;
-  rd_wl : sc_wl_dead c = false;
-  rd_q : sc_readerQ c = [];
-  rd_cont : sc_expectCont c = 0
+  rd_wl : sc_wl_dead c = false
 }.
+(* ... and the read loop is between two header blocks, with nothing queued for the stream loop *)
+Definition ready (c : sconn) (sid : N) : Prop :=
+  ready_sl c sid /\ sc_rl_done c = false /\ sc_readerQ c = [] /\ sc_expectCont c = 0.
 
 Lemma sid_nz sid : N.land sid 1 = 1 -> sid <> 0.
 Proof. intros H E. subst. discriminate. Qed.
 
 (* the first HEADERS frame opens the stream *)
 Lemma sl_frame_fresh c sid es eh frag :
-  ready c sid ->
+  ready_sl c sid ->
   let s := S_of sid (sc_initWin c) (sc_now c) SIdle h_init 0 in
   let c3 := upd_open (upd_strms (upd_lastID (upd_highestID c sid) sid) (sc_strms c ++ [s])) (sc_open c + 1) in
   sl_frame c (headers_frame sid es eh frag) = tail c3 s (headers_frame sid es eh frag) false.
@@ -426,3 +426,4 @@ End Stream.
 Arguments kill {hstate}.
 Arguments tail {hstate}.
 Arguments ready {hstate}.
+Arguments ready_sl {hstate}.
